@@ -919,12 +919,22 @@ def inline_helper_call(ctx: Ctx, f: Func, expr: Optional[ast.AST], depth: int = 
     if m is None:
         return expr
     body = _strip_doc(list(m.node.body))
-    if len(body) != 1 or not isinstance(body[0], ast.Return) or body[0].value is None:
+    ret_value: Optional[ast.AST] = None
+    if len(body) == 1 and isinstance(body[0], ast.Return) and body[0].value is not None:
+        ret_value = body[0].value
+    else:
+        # `x = <expr>; <statements that only adjust x: x.attr = ..., under conditions>; return x` - the value returned is
+        # the object <expr> builds (what is adjusted afterwards is the callee's business, judged by other rules)
+        rets = [r for r in own_nodes(m.node) if isinstance(r, ast.Return)]
+        env_ = single_env(m.node)
+        if len(rets) == 1 and isinstance(rets[0].value, ast.Name) and rets[0].value.id in env_ and rets[0].value.id not in m.params and isinstance(env_[rets[0].value.id], ast.Call) and body and body[-1] is rets[0]:
+            ret_value = env_[rets[0].value.id]
+    if ret_value is None:
         return expr
     binding = bind_call(m, expr, bound=m.parent is None)
     if binding is None:
         return expr
-    out = _SubstMany(binding).visit(clone(body[0].value))
+    out = _SubstMany(binding).visit(clone(ret_value))
     return inline_helper_call(ctx, f, out, depth + 1)
 
 
